@@ -49,6 +49,7 @@ pub enum Tx {
     NextRound,
     CreateToken,
     ProofDrop,
+    ProofsDropSmallFirst,
     // structure-changing transactions (C05)
     NewAccount,
     DepositToVirtual,
@@ -86,6 +87,7 @@ pub const STD_MENU: &[Tx] = &[
     Tx::NextRound,
     Tx::CreateToken,
     Tx::ProofDrop,
+    Tx::ProofsDropSmallFirst,
 ];
 
 /// Structure-changing menu (new global components, owned objects inside KV entries, packages).
@@ -270,6 +272,16 @@ pub fn build_tx<E: NativeVmExtension>(sim: &mut Sim<E>, w: &World, x: &Extras, t
             )
             .build(),
             vec![],
+        ),
+        // two overlapping proofs of different amounts on the same vault; the smaller one (created last) is dropped first
+        Tx::ProofsDropSmallFirst => Built::Manifest(
+            mb().create_proof_from_account_of_amount(a, w.f18, dec!(2))
+                .create_proof_from_account_of_amount(a, w.f18, dec!(1))
+                .pop_from_auth_zone("small")
+                .drop_proof("small")
+                .drop_all_proofs()
+                .build(),
+            sa,
         ),
         Tx::ProofDrop => Built::Manifest(mb().create_proof_from_account_of_amount(a, w.f18, dec!(1)).drop_all_proofs().build(), sa),
     }
